@@ -16,8 +16,11 @@ import (
 	"os"
 	"os/exec"
 	"path/filepath"
+	"runtime"
 	"sort"
 	"strings"
+	"sync"
+	"sync/atomic"
 	"time"
 )
 
@@ -89,6 +92,39 @@ type FindingAt struct {
 	Script []string `json:"script"`
 }
 
+// parallelFor runs f(0..n-1) on all cores.
+func parallelFor(n int, f func(i int)) {
+	workers := runtime.NumCPU()
+	if workers > 16 {
+		workers = 16
+	}
+	if workers > n {
+		workers = n
+	}
+	if workers <= 1 {
+		for i := 0; i < n; i++ {
+			f(i)
+		}
+		return
+	}
+	var wg sync.WaitGroup
+	next := int64(-1)
+	for w := 0; w < workers; w++ {
+		wg.Add(1)
+		go func() {
+			defer wg.Done()
+			for {
+				i := int(atomic.AddInt64(&next, 1))
+				if i >= n {
+					return
+				}
+				f(i)
+			}
+		}()
+	}
+	wg.Wait()
+}
+
 func runGo(s Stream, script []string) (outs []string, fs []Finding) {
 	ex := s.NewExec()
 	outs = make([]string, len(script))
@@ -107,8 +143,52 @@ func safeDo(ex Exec, l string) (out string) {
 	return ex.Do(l)
 }
 
-// runModel pipes the scripts (each preceded by "reset") through the model driver.
+// runModel pipes the scripts through the model driver.  Every script starts with `reset`, so
+// the scripts are independent: they are dealt to several driver processes that run at once.
 func runModel(model string, scripts [][]string) ([][]string, error) {
+	workers := runtime.NumCPU()
+	if workers > 16 {
+		workers = 16
+	}
+	if len(scripts) < 4*workers {
+		workers = 1
+	}
+	if workers <= 1 {
+		return runModelChunk(model, scripts)
+	}
+	res := make([][]string, len(scripts))
+	errs := make([]error, workers)
+	var wg sync.WaitGroup
+	per := (len(scripts) + workers - 1) / workers
+	for w := 0; w < workers; w++ {
+		lo, hi := w*per, (w+1)*per
+		if lo >= len(scripts) {
+			break
+		}
+		if hi > len(scripts) {
+			hi = len(scripts)
+		}
+		wg.Add(1)
+		go func(w, lo, hi int) {
+			defer wg.Done()
+			out, err := runModelChunk(model, scripts[lo:hi])
+			if err != nil {
+				errs[w] = fmt.Errorf("cases %d..%d: %w", lo, hi-1, err)
+				return
+			}
+			copy(res[lo:hi], out)
+		}(w, lo, hi)
+	}
+	wg.Wait()
+	for _, e := range errs {
+		if e != nil {
+			return nil, e
+		}
+	}
+	return res, nil
+}
+
+func runModelChunk(model string, scripts [][]string) ([][]string, error) {
 	var in bytes.Buffer
 	for _, sc := range scripts {
 		in.WriteString("reset\n")
@@ -256,6 +336,7 @@ func main() {
 	rep := Report{Stream: s.Name(), Tier: *tier, Seed: *seed, Hist: map[string]int{}, ModelCmd: *model}
 
 	var scripts [][]string
+	parallelGo := false
 	if *replay != "" {
 		scripts = loadCorpusFile(*replay)
 	} else {
@@ -267,9 +348,20 @@ func main() {
 		ex := s.Exhaustive(*tier)
 		rep.ExhaustiveN = len(ex)
 		scripts = append(scripts, ex...)
-		r := rand.New(rand.NewSource(*seed))
-		for i := 0; i < *cases; i++ {
-			scripts = append(scripts, s.Gen(r, *tier, i))
+		if ps, ok := s.(interface{ Parallel() bool }); ok && ps.Parallel() {
+			// streams without shared state: every case has its own PRNG (seed, index) and the cases
+			// are generated (with execution feedback on the real code) on all cores
+			gen := make([][]string, *cases)
+			parallelFor(*cases, func(i int) {
+				gen[i] = s.Gen(rand.New(rand.NewSource(*seed*1_000_003+int64(i))), *tier, i)
+			})
+			scripts = append(scripts, gen...)
+			parallelGo = true
+		} else {
+			r := rand.New(rand.NewSource(*seed))
+			for i := 0; i < *cases; i++ {
+				scripts = append(scripts, s.Gen(r, *tier, i))
+			}
 		}
 	}
 	rep.Cases = len(scripts)
@@ -286,11 +378,18 @@ func main() {
 	}
 
 	goOuts := make([][]string, len(scripts))
+	goFs := make([][]Finding, len(scripts))
+	if parallelGo {
+		parallelFor(len(scripts), func(i int) { goOuts[i], goFs[i] = runGo(s, scripts[i]) })
+	} else {
+		for i, sc := range scripts {
+			goOuts[i], goFs[i] = runGo(s, sc)
+		}
+	}
 	distinct := map[string]bool{}
 	sigCount := map[string]int{}
 	for i, sc := range scripts {
-		o, fs := runGo(s, sc)
-		goOuts[i] = o
+		o, fs := goOuts[i], goFs[i]
 		rep.Lines += len(sc)
 		for _, x := range o {
 			if x == "panic" {
